@@ -75,7 +75,7 @@ class Bag(object):
                     for related_obj in value:
                         if related_obj not in bag.dicts:
                             bag._process_object(related_obj, process_related=False)
-                if attr.reverse.entity._pk_is_composite_:
+                if len(attr.reverse.entity._pk_columns_) > 1:
                     value = sorted(bag._reduce_composite_pk(item._get_raw_pkval_()) for item in value)
                 else: value = sorted(item._get_raw_pkval_()[0] for item in value)
             elif attr.is_relation:
